@@ -14,6 +14,7 @@ import Driver.Sync
 import Driver.Generator
 import Driver.Cert
 import Driver.Node
+import Driver.Cache
 import Driver.ReqResp
 
 def main (args : List String) : IO UInt32 := do
@@ -35,6 +36,8 @@ def main (args : List String) : IO UInt32 := do
   | ["C06"] => Driver.Cert.main; return 0
   | ["C04"] => Driver.Node.main; return 0
   | ["C05"] => Driver.Node.main; return 0
+  | ["C07NODE"] => Driver.Node.main; return 0
+  | ["C20CACHE"] => Driver.Cache.main; return 0
   | ["C17"] => Driver.ReqResp.main; return 0
   | ["C01"] => Driver.BFT.main; return 0
   | _ => IO.eprintln "usage: ldriver <property-id>"; return 2
